@@ -71,6 +71,8 @@ type verifC02Case struct {
 	Ops   []verifC02Op `json:"ops"`
 	// tw, conns: request headers with degenerate values (what the guards' error paths hand to the logging helpers)
 	Hdrs []verifC02ReqHdr `json:"hdrs"`
+	// tw, conns: the request declares a body that has not arrived yet (slow client): every Read blocks until the case is over
+	GatedBody bool `json:"gated_body"`
 	// multi: several requests through ONE chain instance
 	MReqs []verifC02MReq `json:"mreqs"`
 	MOps  []verifC02MOp  `json:"mops"`
@@ -110,6 +112,21 @@ func verifC02SetHdrs(r *http.Request, hdrs []verifC02ReqHdr) {
 		r.Header[h.N] = []string{v}
 	}
 }
+
+// verifC02GatedBody is a request body whose bytes have not arrived: Read blocks until the driver opens the gate.
+type verifC02GatedBody struct {
+	gate chan struct{}
+	once sync.Once
+}
+
+func (b *verifC02GatedBody) Read(p []byte) (int, error) {
+	<-b.gate
+	return 0, io.EOF
+}
+
+func (b *verifC02GatedBody) Close() error { return nil }
+
+func (b *verifC02GatedBody) open() { b.once.Do(func() { close(b.gate) }) }
 
 type verifC02Op struct {
 	Op    string `json:"op"` // enter | leave
@@ -416,6 +433,14 @@ func verifC02RunTw(c *verifC02Case) (obs map[string]any, ok bool) {
 	req := httptest.NewRequest(http.MethodPost, "http://localhost/verif", nil).WithContext(parent)
 	verifC02SetHdrs(req, c.Hdrs)
 	req.ContentLength = c.Clen
+	if c.GatedBody {
+		gb := &verifC02GatedBody{gate: make(chan struct{})}
+		defer gb.open()
+		req.Body = gb
+		if req.ContentLength <= 0 {
+			req.ContentLength = 5
+		}
+	}
 	if c.Bypass == "upgrade" {
 		req.Header.Set(headerUpgrade, valueWebsocket)
 	}
@@ -567,6 +592,11 @@ func verifC02RunConns(c *verifC02Case) map[string]any {
 			}
 			req := httptest.NewRequest(http.MethodGet, "http://localhost/verif", nil)
 			verifC02SetHdrs(req, c.Hdrs)
+			if c.GatedBody {
+				gb := &verifC02GatedBody{gate: make(chan struct{})}
+				defer gb.open()
+				req.Body, req.ContentLength = gb, 5
+			}
 			req.Header.Set("X-Verif-Req", strconv.Itoa(op.I))
 			go func() {
 				defer close(q.returned)
